@@ -357,6 +357,7 @@ func checkC12(c *Ctx) {
 			"encoders fill it from "+setStr(a)+" but decoders deliver it to "+setStr(b)+" (a field is dropped or crossed)")
 	}
 
+	c12Contribution(c)
 	c12Identity(c)
 	c12BytesToSign(c)
 	c12BlockHash(c)
@@ -505,4 +506,54 @@ func c12BlockHash(c *Ctx) {
 		c.Check(ok, "C12.4", shortName(fn)+": hash = sha256(ToBytes()) after the fields are set", p.FuncPos(fn),
 			"the cached hash is recomputed from ToBytes() after every field store and before returning", "the cached hash can be stale with respect to the block's fields")
 	}
+}
+
+// c12Contribution: the Kauri contribution message: every field is written by the sender and read by the receiver.
+func c12Contribution(c *Ctx) {
+	p := c.P
+	n := p.Named("internal/proto/kauripb", "Contribution")
+	snd := p.Method("protocol/comm/kauri", "KauriGorumsSender", "SendContributionToParent")
+	rcv := p.Method("protocol/comm", "Kauri", "onContributionRecv")
+	if n == nil || snd == nil || rcv == nil {
+		c.Unresolved("C12.1/coverage", "kauripb.Contribution", "anchor missing")
+		return
+	}
+	written, read := map[string]bool{}, map[string]bool{}
+	eachInstr(snd, func(in ssa.Instruction) {
+		if st, ok := in.(*ssa.Store); ok {
+			if fa, ok := st.Addr.(*ssa.FieldAddr); ok && namedOf(fa.X.Type()) == n {
+				written[fieldVar(fa.X.Type(), fa.Field).Name()] = true
+			}
+		}
+	})
+	eachInstr(rcv, func(in ssa.Instruction) {
+		switch x := in.(type) {
+		case *ssa.FieldAddr:
+			if namedOf(x.X.Type()) == n {
+				read[fieldVar(x.X.Type(), x.Field).Name()] = true
+			}
+		case *ssa.Call:
+			if cal := x.Call.StaticCallee(); cal != nil && cal.Signature.Recv() != nil && namedOf(cal.Signature.Recv().Type()) == n && strings.HasPrefix(cal.Name(), "Get") {
+				read[strings.TrimPrefix(cal.Name(), "Get")] = true
+			}
+		}
+	})
+	st := n.Underlying().(*types.Struct)
+	var notW, notR []string
+	nf := 0
+	for i := 0; i < st.NumFields(); i++ {
+		f := st.Field(i)
+		if !f.Exported() {
+			continue
+		}
+		nf++
+		if !written[f.Name()] {
+			notW = append(notW, f.Name())
+		}
+		if !read[f.Name()] {
+			notR = append(notR, f.Name())
+		}
+	}
+	c.Check(len(notW) == 0 && len(notR) == 0 && nf > 0, "C12.1/coverage", "kauripb.Contribution", p.Pos(n.Obj().Pos()),
+		"all "+itoa(nf)+" fields are written by SendContributionToParent and read by onContributionRecv", "not written: {"+join(notW)+"}; not read: {"+join(notR)+"}")
 }
